@@ -3,6 +3,8 @@ SPECIFICATION Spec
 CONSTANTS
   MaxDim = 2
   MaxLen = 2
+  LongDim = 0
+  LongLen = 0
   MaxRounds = 0
   WrongSwap = TRUE
 INVARIANT MapPreserved
